@@ -75,13 +75,14 @@ def gen_log(kind: str):
             leader = rng.choice(names)
             k = rng.randrange(1, 5)
             t_est = 0.1 + 4 * hi
+            kick = rng.random() < 0.6  # driver triggers replication the way the repository's own example does
             case.update(
                 mode="live",
                 script=fault_free_script(rng, hi / 10, hi),
                 max_delay=hi,
                 starts=[{"node": leader, "at": 0.1}],
                 submits=[
-                    {"to": leader, "at": round(t_est + rng.uniform(0, 0.5 * hb) + 0.01 * i, 6), "id": f"c{i}", "kick": False}
+                    {"to": leader, "at": round(t_est + rng.uniform(0, 0.5 * hb) + 0.01 * i, 6), "id": f"c{i}", "kick": kick}
                     for i in range(k)
                 ],
                 pre_submits=rng.choice([0, 0, 1]),
@@ -156,6 +157,7 @@ class LogMonitor:
         self.commit_trigger: dict = {}  # (node, slot) -> (event type, source)
         self.accepted_from: dict = {}  # (leader, slot) -> [sources]
         self.accept_sent: dict = {}  # (leader, slot) -> [(ballot number, cmd id)]
+        self.apply_time: dict = {}  # (node, cmd id) -> time of the apply
         self.withdrawn: dict = {}  # (node, slot) -> event type that made commit_index fall below slot
 
     @staticmethod
@@ -165,6 +167,9 @@ class LogMonitor:
     def flag(self, oracle, shape, detail, extra=None):
         k = (oracle, shape)
         if k in self.flagged:
+            return
+        if oracle in ("apply-prefix", "future-value") and ("agreement", shape) in self.flagged and shape != "no-known-precursor":
+            # consequence of a decision conflict already reported in this run under the same label
             return
         self.flagged.add(k)
         self.res.add(oracle, self.comp, shape, detail, {"trace": self.trace[-200:], **(extra or {})})
@@ -280,6 +285,7 @@ class LogMonitor:
             k = self.applied_seen[name]
             while k < len(seq):
                 self.res.count("applies_checked")
+                self.apply_time.setdefault((name, seq[k]), now)
                 if k < len(self.canon_applies):
                     if self.canon_applies[k][0] != seq[k]:
                         self.flag(
@@ -444,23 +450,35 @@ def run_log(kind: str):
                 if not was_leader:
                     res.inconclusive = "liveness case: target was not leader at submit time"
                     return res
+                bound = t_sub + LIVE_HEARTBEATS * case["hb"] + 6 * hi
                 for nd in nodes:
-                    if cid_ not in applies[nd.name]:
-                        missing.append((cid_, nd.name))
-            if missing:
-                shape = "submit-to-established-leader-never-replicated"
-                if mon.self_demoted:
+                    t_ap = mon.apply_time.get((nd.name, cid_))
+                    if t_ap is None or t_ap > bound + 1e-9:
+                        missing.append((cid_, nd.name, t_ap))
+            by_shape: dict = {}
+            for cid_, nname, t_ap in missing:
+                sent = any(c == cid_ for v in mon.accept_sent.values() for _, c in v)
+                if not sent:
+                    shape = "submit-to-established-leader-never-replicated"
+                elif any(k[0] == nname for k in mon.misplaced):
+                    shape = "accept-for-later-slot-appended-at-log-end"
+                elif mon.self_demoted:
                     shape = "leader-demoted-by-own-heartbeat"
-                sent_after = any(True for (ld, s), v in mon.accept_sent.items())
+                else:
+                    shape = "no-known-precursor"
+                by_shape.setdefault(shape, []).append((cid_, nname, t_ap))
+            for shape, miss in by_shape.items():
                 res.add(
                     "bounded-liveness",
                     comp,
                     shape,
-                    f"commands submitted to the established leader not applied by {missing[:8]} within "
-                    f"{LIVE_HEARTBEATS + 3} heartbeat intervals on a loss-free network (max delay {hi}s); "
-                    f"self-demotions={mon.self_demoted[:2]} accepts_sent={sent_after}",
+                    f"commands submitted to the established leader not applied (command, node, apply time) {miss[:8]} within "
+                    f"{LIVE_HEARTBEATS} heartbeat intervals + 6 message delays on a loss-free network (max delay {hi}s); "
+                    f"self-demotions={mon.self_demoted[:2]}",
                     {"trace": mon.trace[-80:], "submits": submit_info},
                 )
+            if not missing:
+                res.count("liveness_held")
             res.nontrivial = bool(mon.decided)
         else:
             res.nontrivial = len(mon.leaders_seen) >= 2 and bool(mon.decided)
